@@ -122,8 +122,11 @@ def restore_regions(ctx, rule):
     # roles from restore_prob_order's call
     launcher = ctx.fn(PG + 'restore_prob_order')
     lcall = [c for c in calls_in(launcher) if call_name(c) == 'self._recursive_restore_prob_order']
-    pq = ctx.fn(PQ + 'restore_base_item')
-    pcall = [c for c in calls_in(pq) if call_name(c) == 'self.pcfg.restore_prob_order']
+    # the queue's call of restore_prob_order: in restore_base_item, or wherever that call now lives in PcfgQueue
+    pcall = []
+    for lname_, f_ in ctx.repo.modules[PQ.partition('::')[0]].funcs.items():
+        if lname_.startswith('PcfgQueue.'):
+            pcall += [c for c in calls_in(f_) if call_name(c) == 'self.pcfg.restore_prob_order']
     if len(lcall) != 1 or len(pcall) != 1:
         ctx.unk(rule, qual, 'restore call chain not found')
         return None
@@ -353,10 +356,13 @@ def r3_canonical_descent(ctx, rule):
     # all base structures are walked on restore
     iq = ctx.fn(PQ + '__init__')
     found = False
+    iq_stores = stores_in(iq)
     for n in walk_local(iq):
-        if isinstance(n, ast.For) and isinstance(n.iter, ast.Call) and call_name(n.iter) == 'self.pcfg.initalize_base_structures':
+        it_ = expand(iq, n.iter, iq_stores) if isinstance(n, ast.For) else None
+        if isinstance(n, ast.For) and isinstance(it_, ast.Call) and call_name(it_) == 'self.pcfg.initalize_base_structures':
             for s in n.body:
-                if isinstance(s, ast.Expr) and isinstance(s.value, ast.Call) and call_name(s.value) == 'self.restore_base_item' \
+                if isinstance(s, (ast.Expr, ast.Assign)) and isinstance(s.value, ast.Call) \
+                        and call_name(s.value) in ('self.restore_base_item', 'self.pcfg.restore_prob_order') \
                         and s.value.args and U(s.value.args[0]) == U(n.target):
                     found = True
             if found and any(isinstance(s, (ast.Break, ast.Continue, ast.Return, ast.If)) for s in walk_stmts(n.body)):
